@@ -277,7 +277,25 @@ func runC16(c *Ctx) {
 				continue
 			}
 			// constant-nil returns are allowed only while skipping header lines
-			skipping := factLessConstGT(vFieldLoad("rt.csvOpts", "skippedLines", nil))
+			skipping := factLessConstGT(func(v ssa.Value) bool {
+				if vFieldLoad("rt.csvOpts", "skippedLines", nil)(v) {
+					return true
+				}
+				// the skip counter handed in as a plain int (parameter or the loop variable made from it)
+				if !isIntegerType(v.Type()) {
+					return false
+				}
+				ok, _ := allOrigins(v, func(o Origin) bool {
+					if _, isP := o.V.(*ssa.Parameter); isP {
+						return true
+					}
+					if bo, isB := o.V.(*ssa.BinOp); isB && bo.Op.String() == "-" {
+						return true
+					}
+					return vFieldLoad("rt.csvOpts", "skippedLines", nil)(o.V)
+				})
+				return ok
+			})
 			okFE = okFE && guardedBy(r, nil, skipping)
 		}
 	}
